@@ -1063,8 +1063,14 @@ impl<B: RealBook> Runner<B> {
             // published per-level data accounts for all resting volume within its range
             let v = self.real.views();
             let span = (B::LEVELS as u64 - 1) * tick as u64;
-            for bid in [true, false] {
-                let (best, levels) = if bid { (v.bid_ask.0, &v.bid_levels) } else { (v.bid_ask.1, &v.ask_levels) };
+            for (bid, from_l2) in [(true, false), (false, false), (true, true), (false, true)] {
+                // both publications of the per-level data: the level getters and the level-2 record
+                let (best, levels) = match (bid, from_l2) {
+                    (true, false) => (v.bid_ask.0, &v.bid_levels),
+                    (false, false) => (v.bid_ask.1, &v.ask_levels),
+                    (true, true) => (v.l2_head[0], &v.l2_bid),
+                    (false, true) => (v.l2_head[1], &v.l2_ask),
+                };
                 let pubv: u64 = levels.iter().map(|x| x.0 as u64).sum();
                 let pubn: u64 = levels.iter().map(|x| x.1 as u64).sum();
                 let (mut rv, mut rn) = (0u64, 0u64);
@@ -1076,7 +1082,7 @@ impl<B: RealBook> Runner<B> {
                     }
                 }
                 if pubv != rv || pubn != rn {
-                    return fail(i, "grid", "levels_do_not_account_for_resting_volume", format!("after {:?}: side bid={} published ({}, {}) resting in range ({}, {})", op, bid, pubv, pubn, rv, rn));
+                    return fail(i, "grid", "levels_do_not_account_for_resting_volume", format!("after {:?}: side bid={} ({}) published ({}, {}) resting in range ({}, {})", op, bid, if from_l2 { "level-2 record" } else { "level getter" }, pubv, pubn, rv, rn));
                 }
             }
         }
